@@ -95,7 +95,8 @@ def step (st : Unit) (j : Json) : Unit × Json :=
         let f ← featOfJson (← field j "feat")
         pure (okJson (Json.mkObj [("model", Json.str (reprStr (SerDispatch.dispatch f))),
                                   ("gen", Json.str (reprStr (Generated.SerializeDispatch.dispatchGen f))),
-                                  ("obs", Json.str (SerDispatch.obsOf (Generated.SerializeDispatch.dispatchGen f)))]))
+                                  ("obs", Json.str (SerDispatch.obsOf (Generated.SerializeDispatch.dispatchGen f))),
+                                  ("consistent", Json.bool (SerDispatch.Consistent f))]))
     | "kinds" =>
         -- the table of facts per value kind the theorems are about (`featOf`, `branchOf`)
         pure (okJson (Json.mkObj (SerDispatch.allKinds.map fun k =>
